@@ -17,13 +17,13 @@ CHECKS = {
    text="Full product of alpha pattern class x size x RGB class x AlphaCompression x AlphaFiltering x AlphaQuality thresholds x Method x Exact, plus every number of distinct alpha levels 1..256 and curved alpha surfaces (glow, saddle) x compression x filter x Method; decoded alpha must equal source alpha at AlphaQuality 100 (and by the reference ALPH decoder), and obey the documented level count / kept extremes below 100.",
    note="Trusts the reference ALPH decoder (written from the container specification over vendored x/image vp8l); worker count pinned, pools fresh.", ref="3/C07"),
  "C15": dict(cat="exploration", tech="full-product enumeration of metadata blob alphabet^3 x output kinds; byte-exact read-back through three parsers",
-   text="Full product of a 10-blob alphabet (absent, nil, empty, 1-3 bytes, chunk-look-alike, 4095/4096/65537 bytes) for each of ICC/EXIF/XMP x 6 output kinds (lossy, lossless, +alpha, 1- and 2-frame AnimEncoder); blobs read back byte-exact by riffwalk, mux.GetChunk and animation.DecodeBytes; flags = presence; bitstream, ALPH payload and pixels identical to the no-metadata output.",
+   text="Full product of a 10-blob alphabet (absent, nil, empty, 1-3 bytes, chunk-look-alike, 4095/4096/65537 bytes) for each of ICC/EXIF/XMP x 8 output kinds (lossy, lossless, +alpha, +alpha with Exact, 1- and 2-frame AnimEncoder); blobs read back byte-exact by riffwalk, mux.GetChunk and animation.DecodeBytes; flags = presence; bitstream, ALPH payload and pixels identical to the no-metadata output.",
    note="100 MB cap edge is not enumerated in quick; worker count pinned, pools fresh.", ref="3/C15"),
  "C17": dict(cat="fault_enumeration", tech="complete enumeration of all prefixes of every corpus file x 5 kinds of io.Reader against the three public entry points (and image.Decode/DecodeConfig)",
    text="Every prefix (all cut points, and the complete file), delivered through five kinds of io.Reader (known length, unknown length, one byte per Read, data together with io.EOF, image.Decode via the registered format), of ~300 valid still files covering lossy 1-8 partitions, lossless per transform class, lossy+alpha raw/VP8L x filters, extended layouts with metadata/unknown chunks before and after the image, odd payloads: Decode must fail or return the identical picture; DecodeConfig/GetFeatures must fail or return identical values.",
    note="Corpus files are small (<= 6 KB) so that the enumeration is complete; files outside the corpus classes are not covered.", ref="3/C17"),
  "C19": dict(cat="exploration", tech="full-product enumeration of picture x storage placement x codec options; byte equality against the canonical placement",
-   text="Full product of picture (size x content x alpha) x 10 storage placements (sub-image, odd sub-image, negative origin, stride padding, poisoned parents, generic wrappers, over-long Pix) x codec x Exact x sharp YUV x dithering x Method; all placements must give bytes identical to the plain NRGBA-at-origin encoding and leave the caller's buffer untouched.",
+   text="Full product of picture (size x content x alpha) x 16 storage placements (sub-image, odd sub-image, negative origin, stride padding, poisoned parents, generic NRGBA/RGBA/NRGBA64 wrappers and *image.RGBA at the origin, over sub-image views and at negative origins, over-long Pix) x codec x Exact x sharp YUV x dithering x Method; all placements must give bytes identical to the plain NRGBA-at-origin encoding and leave the caller's buffer untouched.",
    note="RGBA/NRGBA64 wrappers only for opaque pictures (exactly representable colours); worker count pinned, pools fresh.", ref="3/C19"),
  "C20": dict(cat="exploration", tech="pairwise-exhaustive enumeration of EncoderOptions boundary values (deviation bound 2) + documented-equivalence byte comparison",
    text="Every field at its boundary values (min-1..max+1, sentinels, MinInt/MaxInt, NaN/Inf/-0), all (field,value) pairs, on 3 pictures: never panics, error XOR conformant decodable file. Every documented sentinel/inert-field equivalence is checked byte-for-byte under every single-field context; nil = DefaultOptions(); boundary images (nil args, empty/inverted bounds, 16383/16384 px, failing writer).",
@@ -67,7 +67,7 @@ _MORE = {
    note="arm64 assembly and 32-bit targets cannot be executed in this sandbox (compile-only); kernel-level inputs stay below the magnitude range of the recorded IDCT finding; two open known findings (linux/s390x compiler error, 16-bit IDCT wrap on extreme coefficients).", ref="3/C13"),
 
  "C03": dict(cat="exploration", tech="exhaustive enumeration of syntax trees of a VP8L stream generator (full transform-order product, deviation-bounded feature menus) decoded by the real decoder and by two independent decoders",
-   text="A syntax-directed VP8L writer (own bit writer, canonical prefix codes, code-length coding, transforms, entropy image, colour caches, LZ77 programs) is driven by the explorer: the full product of all 65 ordered transform subsets x 13 dimensions x 2 tile sizes with at most one further deviation, and 10 orders x 5 dimensions with at most 2 (thorough 3) deviations from menus covering every predictor mode, multipliers, palette sizes and packings, cache sizes for every image level, meta prefix images, prefix-code shapes and 7 backward-reference programs incl. all 120 plane codes. Every stream is valid by construction; webp.Decode and lossless.DecodeVP8L must return exactly the pixels of the vendored x/image decoder, with libwebp arbitrating; a hang guard turns a non-terminating decode into a violation.",
+   text="A syntax-directed VP8L writer (own bit writer, canonical prefix codes, code-length coding, transforms, entropy image, colour caches, LZ77 programs) is driven by the explorer: the full product of all 65 ordered transform subsets x 13 dimensions x 2 tile sizes with at most one further deviation, 10 orders x 5 dimensions with at most 2 (thorough 3) deviations, and a 128x160 picture x 5 orders with at most 2 deviations (copy lengths up to 4096), from menus covering every predictor mode, multipliers, palette sizes and packings, cache sizes for every image level, meta prefix images, prefix-code shapes (incl. exactly-15-bit skewed codes in both directions), group ids beyond the pixel count and beyond 1000, and 8 backward-reference programs incl. all 120 plane codes and every extra-bit class. Every stream is valid by construction; webp.Decode and lossless.DecodeVP8L must return exactly the pixels of the vendored x/image decoder, with libwebp arbitrating; a hang guard turns a non-terminating decode into a violation.",
    note="A stream both references reject counts as a generator fault, one on which they disagree is dropped and counted (0 and 0 on the pinned tree); pictures are at most 33 px wide; deviations beyond the bound are not covered.", ref="3/C03"),
 
  "C04": dict(cat="exploration", tech="exhaustive enumeration of syntax trees of a VP8 key-frame generator (own boolean entropy encoder) and of ALPH payload shapes, decoded by the real decoder and by independent references",
